@@ -32,6 +32,8 @@ PROP = {  # commit subject fragment -> (property, id)
  "with utf8_lossy, from_slice into a Value": ("C09", "F31"),
  "Display of an OwnedLazyValue": ("C13", "F32"),
  "to_lazyvalue of true, false or null": ("C13", "F33"),
+ "from_value cannot produce a RawNumber": ("C19", "F35"),
+ "raw number beyond the range of f64) as None": ("C19", "F36"),
 }
 KNOWN = []
 out = []
